@@ -451,8 +451,9 @@ func GetAttr(v Value, attr Value, args ...Value) (Value, error) {
 	if !retval.IsValid() && r.Kind() != reflect.Struct {
 		// Not an element: maybe a method of a named map, slice or basic type
 		// (url.Values.Get, time.Duration.Seconds).
-		if name, ok := attr.(string); ok {
-			if m, err := getMethod(v, name); err == nil {
+		// (The name may be marked as safe, or be of a defined string type.)
+		if name := withoutSafe(attr); reflect.ValueOf(name).Kind() == reflect.String {
+			if m, err := getMethod(v, CoerceString(name)); err == nil {
 				retval = m
 			}
 		}
